@@ -239,10 +239,55 @@ package provider
 //@   ensures C06.content-check-passed-on-the-persisted-request: accepted() ==> rcCalls == old(rcCalls) + 1 && rcOK && rcReq == persistReq && rcSP == spRef && rcVer == persistVer
 //@   ensures C06.request-and-signature-parameters: accepted() ==> formValue(r, "SAMLRequest") != "" && (formValue(r, "SigAlg") != "" ==> formValue(r, "Signature") != "")
 //@   ensures C06.issuer-lookup: accepted() ==> spOK && spLookups == old(spLookups) + 1
+//@ ## ---- logout endpoint ----
+//@ pure lrMsg() = as(encRef, "samlp.LogoutResponseType")
+//@ pure lreq() = as(decObj, "samlp.LogoutRequestType")
+//@ pure isLogoutResponse() = encTag == typetag("*samlp.LogoutResponseType")
+//@ pure logoutForm() = as(emitData, "provider.LogoutResponseForm")
+//@ pure spSLS() = regSP().Metadata.SPSSODescriptor.SingleLogoutService
+//@ pure sentLogoutForm(tmpl, url, relay) = emitKind == 4 && emitTmpl == tmpl && emitTag == typetag("provider.LogoutResponseForm") &&
+//@             logoutForm().SAMLResponse == b64enc(msgBytes()) && logoutForm().LogoutURL == url && logoutForm().RelayState == relay
+//@ pure logoutSuccess() = !httpError() && lrMsg().Status.StatusCode.Value == StatusCodeSuccess
+//@
+//@ func provider.checkIfRequestTimeIsStillValid$1
+//@   property C06 C13
+//@   inline
+//@   requires deref(notBefore) != 0 && deref(notOnOrAfter) != 0
+//@   enter tcCalls = tcCalls + 1
+//@   leave tcOK = (result == nil)
+//@   leave tcClock = clock
+//@   ensures one-clock-reading: nowCalls == old(nowCalls) + 1 && clock >= old(clock)
+//@   ensures not-before-now: result == nil && getStr(deref(notBefore)) != "" ==> timeParseOK(deref(timeFormat), getStr(deref(notBefore))) &&
+//@             timeVal(deref(timeFormat), getStr(deref(notBefore))) <= clock
+//@   ensures now-before-not-on-or-after: result == nil && getStr(deref(notOnOrAfter)) != "" ==> timeParseOK(deref(timeFormat), getStr(deref(notOnOrAfter))) &&
+//@             clock < timeVal(deref(timeFormat), getStr(deref(notOnOrAfter)))
+//@   ensures unparseable-or-outside-is-rejected: result != nil <==> ((getStr(deref(notBefore)) != "" && (!timeParseOK(deref(timeFormat), getStr(deref(notBefore))) || timeVal(deref(timeFormat), getStr(deref(notBefore))) > clock)) ||
+//@             (getStr(deref(notOnOrAfter)) != "" && (!timeParseOK(deref(timeFormat), getStr(deref(notOnOrAfter))) || timeVal(deref(timeFormat), getStr(deref(notOnOrAfter))) <= clock)))
+//@   canary canary-always-ok: result == nil
+//@
 //@ func (*provider.IdentityProvider).logoutHandleFunc
 //@   inline
 //@   property C09
 //@   requires wfIDP(p) && wfReq(r) && w != nil
+//@   requires !faulted
+//@   ensures C13,C10.exactly-one-reply: emitCount == old(emitCount) + 1
+//@   ensures C13.reply-is-error-or-one-unmodified-logout-response: httpError() || (isLogoutResponse() && msgCurrent() &&
+//@             (sentBody() || sentLogoutForm(p.logoutTemplate, lrMsg().Destination, valuesGet(r.Form, "RelayState"))))
+//@   ensures C13.success-only-for-a-decoded-request-of-a-registered-provider-inside-its-window: logoutSuccess() ==>
+//@             decCalls == old(decCalls) + 1 && decOK && decMsg == valuesGet(r.Form, "SAMLRequest") && decEnc == valuesGet(r.Form, "SAMLEncoding") &&
+//@             lreq().Issuer != nil && spOK && spLookups == old(spLookups) + 1 && spKey == lreq().Issuer.Text &&
+//@             tcCalls == old(tcCalls) + 1 && tcOK && tcClock <= clock &&
+//@             (lreq().IssueInstant != "" ==> timeParseOK(p.TimeFormat, lreq().IssueInstant) && timeVal(p.TimeFormat, lreq().IssueInstant) <= tcClock) &&
+//@             (lreq().NotOnOrAfter != "" ==> timeParseOK(p.TimeFormat, lreq().NotOnOrAfter) && tcClock < timeVal(p.TimeFormat, lreq().NotOnOrAfter))
+//@   ensures C13.in-response-to-echoes-the-decoded-id: !httpError() && decCalls == old(decCalls) + 1 && decOK ==> lrMsg().InResponseTo == lreq().Id
+//@   ensures C13,C11.issuer-is-idp-entity-id: !httpError() ==> lrMsg().Issuer != nil && lrMsg().Issuer.Text == idpEntityID(p, r) && lrMsg().Version == "2.0" && lrMsg().Signature == nil
+//@   ensures C13,C02.form-goes-to-the-first-registered-logout-location: emitKind == 4 ==> spOK && len(spSLS()) > 0 && logoutForm().LogoutURL == spSLS()[0].Location &&
+//@             lrMsg().Destination == spSLS()[0].Location
+//@   ensures C13,C02.body-only-when-no-location-is-known: emitKind == 3 ==> lrMsg().Destination == "" && (spLookups == old(spLookups) || !spOK || len(spSLS()) == 0 || spSLS()[0].Location == "")
+//@   ensures C13.fresh-id: !httpError() ==> idIndex(lrMsg().Id) >= old(idCount) && lrMsg().Id == idOf(idIndex(lrMsg().Id))
+//@   ensures C10.fault-means-failure: faulted ==> httpError() || lrMsg().Status.StatusCode.Value != StatusCodeSuccess
+//@   canary C13.canary-never-success: !logoutSuccess()
+//@   canary C13.canary-always-success: !httpError() ==> logoutSuccess()
 //@ func (*provider.IdentityProvider).attributeQueryHandleFunc
 //@   inline
 //@   property C09
